@@ -181,14 +181,14 @@ def gen_expr(rng, depth, names, env, ops=None):
                      "neg", "negref", "pow", "powref", "exp", "log", "ncdf", "nicdf", "abs"]
     for _ in range(200):
         try:
-            if depth == 0 or rng.random() < 0.12:
-                if rng.random() < 0.8:
+            if depth == 0 or rng.random() < 0.10:
+                if rng.random() < 0.9:
                     v = rng.choice(names)
                     e = ("var", v)
                 else:
                     e = ("cst", nice_float(rng))
             else:
-                t = rng.choice(allops)
+                t = rng.choice(allops) if rng.random() < 0.45 else rng.choice([o for o in allops if o in ("add", "sub", "mul", "div")] or allops)
                 if t in ("add", "sub", "mul", "div"):
                     a, _ = gen_expr(rng, depth - 1, names, env, ops)
                     b, _ = gen_expr(rng, rng.randint(0, depth - 1), names, env, ops)
